@@ -433,3 +433,61 @@ pub fn crate_encode_avp(a: &SAvp) -> Caught<Vec<u8>> {
         w.data
     })
 }
+
+/// decode a message through any conforming reader; returns (result, octets left in the reader)
+pub fn decode_via<T: Borrow<[u8]>, R: Reader<T>>(r: &mut R, o: Opts) -> (Result<SMsg, Vec<DecodeError>>, usize) {
+    let m = Message::<T>::try_read_validate(r, copts(o)).map(|m| from_crate_msg(&m));
+    (m, r.len())
+}
+
+pub fn decode_avps_via<T: Borrow<[u8]>, R: Reader<T>>(r: &mut R) -> (AvpsOut, usize) {
+    let v: AvpsOut = AVP::try_read_greedy(r).into_iter().map(|x| x.map(|a| from_crate(&a))).collect();
+    (v, r.len())
+}
+
+/// call the public `try_read` of one AVP kind directly on a payload reader (the harness's own
+/// dispatch table; attribute type 39 has no reader of its own and is not covered)
+pub fn per_type_try_read<T: Borrow<[u8]>, R: Reader<T>>(attr: u16, r: &mut R) -> Option<Result<SAvp, DecodeError>> {
+    let a: Result<AVP, DecodeError> = match attr {
+        0 => t::MessageType::try_read(r).map(AVP::MessageType),
+        1 => t::ResultCode::try_read(r).map(AVP::ResultCode),
+        2 => t::ProtocolVersion::try_read(r).map(AVP::ProtocolVersion),
+        3 => t::FramingCapabilities::try_read(r).map(AVP::FramingCapabilities),
+        4 => t::BearerCapabilities::try_read(r).map(AVP::BearerCapabilities),
+        5 => t::TieBreaker::try_read(r).map(AVP::TieBreaker),
+        6 => t::FirmwareRevision::try_read(r).map(AVP::FirmwareRevision),
+        7 => t::HostName::try_read(r).map(AVP::HostName),
+        8 => t::VendorName::try_read(r).map(AVP::VendorName),
+        9 => t::AssignedTunnelId::try_read(r).map(AVP::AssignedTunnelId),
+        10 => t::ReceiveWindowSize::try_read(r).map(AVP::ReceiveWindowSize),
+        11 => t::Challenge::try_read(r).map(AVP::Challenge),
+        12 => t::Q931CauseCode::try_read(r).map(AVP::Q931CauseCode),
+        13 => t::ChallengeResponse::try_read(r).map(AVP::ChallengeResponse),
+        14 => t::AssignedSessionId::try_read(r).map(AVP::AssignedSessionId),
+        15 => t::CallSerialNumber::try_read(r).map(AVP::CallSerialNumber),
+        16 => t::MinimumBps::try_read(r).map(AVP::MinimumBps),
+        17 => t::MaximumBps::try_read(r).map(AVP::MaximumBps),
+        18 => t::BearerType::try_read(r).map(AVP::BearerType),
+        19 => t::FramingType::try_read(r).map(AVP::FramingType),
+        21 => t::CalledNumber::try_read(r).map(AVP::CalledNumber),
+        22 => t::CallingNumber::try_read(r).map(AVP::CallingNumber),
+        23 => t::SubAddress::try_read(r).map(AVP::SubAddress),
+        24 => t::TxConnectSpeed::try_read(r).map(AVP::TxConnectSpeed),
+        25 => t::PhysicalChannelId::try_read(r).map(AVP::PhysicalChannelId),
+        26 => t::InitialReceivedLcpConfReq::try_read(r).map(AVP::InitialReceivedLcpConfReq),
+        27 => t::LastSentLcpConfReq::try_read(r).map(AVP::LastSentLcpConfReq),
+        28 => t::LastReceivedLcpConfReq::try_read(r).map(AVP::LastReceivedLcpConfReq),
+        29 => t::ProxyAuthenType::try_read(r).map(AVP::ProxyAuthenType),
+        30 => t::ProxyAuthenName::try_read(r).map(AVP::ProxyAuthenName),
+        31 => t::ProxyAuthenChallenge::try_read(r).map(AVP::ProxyAuthenChallenge),
+        32 => t::ProxyAuthenId::try_read(r).map(AVP::ProxyAuthenId),
+        33 => t::ProxyAuthenResponse::try_read(r).map(AVP::ProxyAuthenResponse),
+        34 => t::CallErrors::try_read(r).map(AVP::CallErrors),
+        35 => t::Accm::try_read(r).map(AVP::Accm),
+        36 => t::RandomVector::try_read(r).map(AVP::RandomVector),
+        37 => t::PrivateGroupId::try_read(r).map(AVP::PrivateGroupId),
+        38 => t::RxConnectSpeed::try_read(r).map(AVP::RxConnectSpeed),
+        _ => return None,
+    };
+    Some(a.map(|x| from_crate(&x)))
+}
